@@ -573,6 +573,10 @@ def calc_blockdep(
     block_config = npu_op.block_config
     overlapping_fm = npu_op.ifm if ifm_overlaps else npu_op.ifm2
     assert overlapping_fm is not None
+    if prev_op.ofm.layout != overlapping_fm.layout or get_strides(prev_op.ofm) != get_strides(overlapping_fm):
+        # The calculation below compares blocks of the two feature maps by coordinate, which is only valid if they
+        # address the memory in the same way (not the case for e.g. the transposed OFM of a Transpose operation)
+        return 0
 
     cur_ifm_block_depth = get_ifm_ofm_block_depth(arch, npu_op)
     cur_ofm_block = Block(block_config.width, block_config.height, block_config.depth)
